@@ -71,7 +71,23 @@ def r_c08_order(s4, repo, scratch):
             'observed': 'identical' if out1 == out2 else 'differs: %r' % out2[:300], 'failed': out1 != out2 or not out1}
 
 
+def r_c03_journal_before_inclusive(s4, repo, scratch):
+    """a journal entry whose instant equals --dt-before is inside the window (both bounds inclusive)"""
+    f = os.path.join(repo, 'logs/Ubuntu16/6c6ab73d82464b9493892c81fc732b3a/system.journal')
+    x = '2023-12-15T23:51:09.163335+00:00'    # six entries of that file carry exactly this receive time
+    def n(args):
+        rc, out, err = run_s4(s4, ['--color', 'never'] + args + [f])
+        return len([l for l in out.split(b'\n') if l])
+    total, nb, na, nab = n([]), n(['-b', x]), n(['-a', x]), n(['-a', x, '-b', x])
+    ok = total > 0 and nab >= 1 and nb + na - nab == total
+    return {'name': 'C03.journal_before_inclusive', 'input': f, 'how_made': 'file from the repository; bound = receive time of six of its entries',
+            'cmd': '%s --color never -a %s -b %s %s' % (s4, x, x, f),
+            'expected': 'lines(-b X) + lines(-a X) - lines(-a X -b X) == lines() and lines(-a X -b X) >= 1',
+            'observed': 'total=%d  -b X=%d  -a X=%d  -a X -b X=%d' % (total, nb, na, nab), 'failed': not ok}
+
+
 RECIPES = {
+    'C03': [r_c03_journal_before_inclusive],
     'C08': [r_c08_equal_times, r_c08_order],
 }
 
